@@ -13,7 +13,11 @@ Decided clauses (typestate of the module record):
       ModuleStatus::ancestor_index_mut writes min(current value, x) — either the result of Ord::min one of whose operands
       is a load of the same reference, or a value stored under a dominating `x < current` test (Tarjan's low-link; a
       store that can raise it closes part of a cycle early, so a later failure never reaches those modules)
-Not decided: DFS order, cycle roots, pending-dependency arithmetic.
+  R5  the two ways a module leaves the DFS stack agree on its cycle root: in every transition closure that can produce
+      both ModuleStatus::Evaluated and ModuleStatus::EvaluatingAsync, the `cycle_root` field of the two results comes
+      from the same sources (the specification sets [[CycleRoot]] in one step for both: 16.b.iv.viii) — a member that keeps
+      itself as root answers "evaluated, no error" for a cycle that is still running or has failed
+Not decided: DFS order, pending-dependency arithmetic.
 """
 from facts import (cn, callee, cname, roots, op_local, place_fields)
 
@@ -277,6 +281,41 @@ def r4(db, rep):
     rep.floor("R4", "stores through ancestor_index_mut", n, 2)
 
 
+def r5(db, rep):
+    rep.rule("R5", "Evaluated and EvaluatingAsync results of one transition closure take their cycle_root from the same sources")
+    n = 0
+    for f in db.fns.values():
+        if not f.id.startswith("boa_engine::module::source") or "{closure" not in f.id or not f.mentions("cycle_root"):
+            continue
+        sig = {}
+        for b in f.reachable():
+            for st in f.blocks[b]["s"]:
+                r = st["r"]
+                if r.get("k") == "agg" and r.get("adt") == MS and r.get("variant") in ("Evaluated", "EvaluatingAsync") \
+                        and "cycle_root" in (r.get("fields") or []):
+                    o = r["ops"][r["fields"].index("cycle_root")]
+                    l = op_local(o)
+                    s_ = set()
+                    for rt in (roots(f, l) if l is not None else []):
+                        if rt[0] == "call":
+                            s_.add("call " + cn(rt[2]))
+                        elif rt[0] == "place":
+                            flds = place_fields(rt[1])
+                            s_.add("field " + (flds[-1].split(".")[-1] if flds else "?") if flds else "place upvar")
+                        else:
+                            s_.add(rt[0])
+                    sig.setdefault(r["variant"], set()).update(s_)
+        if len(sig) < 2:
+            continue
+        n += 1
+        base = cname(f.id).split("::{closure")[0]
+        rep.ob("R5", f"{base}:cycle-root-sources-agree:{n - 1}", sig["Evaluated"] == sig["EvaluatingAsync"],
+               f"{cname(f.id)}: the Evaluated result takes cycle_root from {sorted(sig['Evaluated'])} but the EvaluatingAsync result "
+               f"from {sorted(sig['EvaluatingAsync'])}: a synchronously executed non-root member of a cycle keeps itself as its "
+               f"cycle root, so a later importer does not wait for (or fail with) the real root", loc=f.span)
+    rep.floor("R5", "closures producing both Evaluated and EvaluatingAsync", n, 1)
+
+
 def json_key(x):
     import json
     return json.dumps(x, sort_keys=True, default=str)
@@ -287,3 +326,4 @@ def run(db, rep, tier):
     r2(db, rep)
     r3(db, rep)
     r4(db, rep)
+    r5(db, rep)
